@@ -226,5 +226,28 @@ CHECKS["C13"] = {
             "produces differ.",
     "note": _GEN_NOTE + "; an edit that makes the configuration invalid (generation fails) is not judged; double edits are not generated",
 }
+CHECKS["C17"] = {
+    "engine": "tlc-spec", "category": "exploration", "design_ref": "6/C17, 3 (Pkcs8.tla)",
+    "technique": "Pkcs8.tla: PKCS#8/ECPrivateKey grammar + curve table with group orders; MCPkcs8 enumerates edge scalars per curve (TLC checks the labels); written "
+                 "bytes decoded and judged by TLC (Pkcs8Judge.tla); key equality and standard-library interop are facts of the driver",
+    "text": "10 curves x 18 scalar classes (1, n-1, 1/2/8 leading zero octets, stripped and over-padded forms, pseudo-random, n, all-ones, one octet too long, zero) "
+            "given to gopki as standard PKCS#8, written back by gopki and decoded by the TLA+ grammar (right algorithm, curve, same number); re-read by gopki, by the "
+            "standard library (NIST) and by the independent reader (public point = d*G with own arithmetic); standard-library encodings accepted by gopki; RSA 1024/2048 "
+            "(3072/4096 thorough); eleven classes of input that is no key; all 16 combinations of hash line / certificate / key / request through ReadPem.",
+    "note": "honest level: the specification contributes the structural grammar, the curve table and the case enumeration; equality of keys is decided by the driver's "
+            "comparison and the standard library. Trusted: TLC, package ecv (self-checked constants), crypto/x509",
+}
+CHECKS["C20"] = {
+    "engine": "tlc-spec", "category": "exploration", "design_ref": "6/C20, 3 (Hostile.tla), 7",
+    "technique": "Hostile.tla (allowed outcome sets per value class) judging a model-driven slot x class catalogue and artifact-state x flag product run through the real "
+                 "pipeline, plus a seeded non-coverage-guided byte mutator over the repository's corpora (trivial specification: outcome # panic)",
+    "text": "Every scalar slot of a full certificate configuration (all eleven extension kinds, admission tree, policies with qualifiers, manipulations) and of a profile x "
+            "hostile classes (OID arcs >= 2^63 / 40 digits, first arc 3, single arc; integers +-2^63, 10^30; impossible dates; 20-digit durations; malformed base64; wrong "
+            "YAML types; empty, 1 MiB, NUL strings; IP octets 256/-1/a); 15 artifact states (garbage, #HASH not at offset 0, hash line without newline, PKCS#1 / SEC1 key "
+            "blocks, certificate of another key, ...) x both tiers x flag sets; 20,000 (quick) / 2,000,000 (thorough) mutated inputs into ParseConfig, ReadPem, Open+run. "
+            "Never a panic; out-of-range values that pass the schema must end in an error or a skipped file.",
+    "note": "coverage-guided fuzzing is a different technique and is not used (DESIGN.md 7); the byte mutator is shallow by construction and declared as such. Every other "
+            "check runs the real code under recover() and reports panics itself",
+}
 for e in ENGINES:
     e["serves_properties"] = sorted(CHECKS)
